@@ -1,18 +1,14 @@
 import AsyncFix.Props.C05
 
 /-!
-Machine-checked counter-examples for the two statements of Props/C05 that are kept as `def … : Prop`
-(non-gating).
+Machine-checked counter-example for the statement of Props/C05 that is kept as `def … : Prop`
+(non-gating), and the regression witness of the repaired finding D9.
 
 * `not_outInv_step_full` – finding `C05-app-own-number`: an application that passes a SequenceReset
   (or PossDupFlag=Y) message to `send_msg` chooses the number itself; `persist_msg` then sets the stored
   outbound counter to that number.  Witness: counter 42, the application sends
   `SequenceReset(34=3, 36=9)`: stored next-outbound becomes 3 (+1) while the session keeps 42 – after a
   restart the numbers 4 … 41 would be used again.
-* `not_new_messages_journaled_full` – consequence of the open C06 finding D9 for C05: a bounded
-  ResendRequest deletes the rows above its range.  Witness: orders sent under 43 and 44,
-  `ResendRequest(7=43, 16=43)`: afterwards the journal holds a SequenceReset-GapFill under 44 although
-  the order sent under 44 was neither retransmitted nor declined – its bytes cannot be read back.
 -/
 namespace AsyncFix.Findings.C05
 
@@ -32,38 +28,17 @@ theorem not_outInv_step_full : ¬ outInv_step_full := by
   revert this
   decide +kernel
 
+/-! ### former finding D9 (repaired by /repo da179c4): regression witness, now a positive fact -/
+
 def bounded : List Event := [
   .appSend env0 (order "one"),
   .appSend env0 (order "two"),
   .recv env0 (peer "2" 8 [(7, "43"), (16, "43")]) ]
 
-def lost : Msg := buildFrame cA.sess env0.stamp (order "two") 44
+def kept : Msg := buildFrame cA.sess env0.stamp (order "two") 44
 
-theorem not_new_messages_journaled_full : ¬ new_messages_journaled_full := by
-  intro h
-  have hok : ∀ ev ∈ bounded, ev.ok ∧ isReset ev = false := by decide
-  have hs := h (fun _ => true) cA bounded cA_inv hok (by decide +kernel) lost (by decide +kernel) 44
-    (buildFrame_seqOf _ _ _ _)
-  -- the journal holds a gap fill under 44 …
-  have hrow : (Rows.find 44 (run (fun _ => true) cA bounded).1.journal.out).map (·.mtype)
-      = some mSequenceReset := by decide +kernel
-  unfold Slot at hs
-  cases hf : Rows.find 44 (run (fun _ => true) cA bounded).1.journal.out with
-  | none => rw [hf] at hrow; cases hrow
-  | some g =>
-    rw [hf] at hrow hs
-    have hg : g.mtype = mSequenceReset := by simpa using hrow
-    -- … which is no copy of the order, and the order was not declined
-    have hdecl : ¬ Declined (fun _ => true) (run (fun _ => true) cA bounded).1.sess.sender
-        (run (fun _ => true) cA bounded).1.sess.target lost := by
-      intro hd
-      rcases hd with hd | ⟨_, _, hd⟩
-      · revert hd; decide
-      · cases hd
-    rcases hs with hc | ⟨_, hd⟩
-    · have := hc.mtype
-      rw [hg] at this
-      revert this; decide
-    · exact hdecl hd
+/-- after `ResendRequest(7=43, 16=43)` the order sent under 44 is still in the journal, identically -/
+theorem bounded_resend_keeps_row :
+    Rows.find 44 (run (fun _ => true) cA bounded).1.journal.out = some kept := by decide +kernel
 
 end AsyncFix.Findings.C05
